@@ -50,11 +50,11 @@ Lemma step_inv s sp o :
   inv s sp -> inv (step s o) (spec_step sp o) /\ step_chk s o = Some (step s o).
 Proof.
   intros (Hok & Hs & Hp & Hsz & Hv). unfold contents in *.
-  destruct o as [lo hi|lo hi|]; cbn [step step_chk spec_step].
+  destruct o as [lo hi tg|lo hi|]; cbn [step step_chk spec_step].
   - (* Insert *)
     destruct (Z.gtb_spec lo hi) as [Hinv|Hval].
     { split; [|reflexivity]. repeat split; assumption. }
-    destruct (ins_ok lo hi (root s) Hok) as (Hok' & Hc & _). rewrite Hc. cbn [bind].
+    destruct (ins_ok lo hi tg (root s) Hok) as (Hok' & Hc & _). rewrite Hc. cbn [bind].
     split; [|reflexivity]. unfold inv, contents. cbn [root size].
     repeat split.
     + exact Hok'.
@@ -183,8 +183,8 @@ Qed.
 (* ---- the hypotheses are satisfiable by non-trivial reachable states ---- *)
 
 Definition example_ops : list op :=
-  [Insert 0 1; Insert 3 4; Insert 6 6; Insert 8 10; Insert 12 13; Insert 15 20;
-   Insert 22 22; Insert 5 2; Delete 3 4; Insert 24 30].
+  [Insert 0 1 1; Insert 3 4 2; Insert 6 6 3; Insert 8 10 4; Insert 12 13 5; Insert 15 20 6;
+   Insert 22 22 7; Insert 5 2 8; Delete 3 4; Insert 24 30 10].
 
 Lemma example_disjoint :
   pairwise_disjoint (spec example_ops)
@@ -207,7 +207,7 @@ Lemma intersects_needs_disjoint :
   exists ops lo hi,
     intersects (run ops) lo hi <> existsb (overlaps (lo, hi)) (contents (run ops)).
 Proof.
-  exists [Insert 5 5; Insert 0 10], 7, 7. vm_compute. discriminate.
+  exists [Insert 5 5 1; Insert 0 10 2], 7, 7. vm_compute. discriminate.
 Qed.
 
 Lemma can_update_needs_disjoint :
@@ -216,7 +216,7 @@ Lemma can_update_needs_disjoint :
     can_update (run ops) (fst x) (snd x) newlo newhi
     <> negb (existsb (fun y => overlaps (newlo, newhi) y && negb (same x y)) (contents (run ops))).
 Proof.
-  exists [Insert 5 5; Insert 0 10; Insert 20 20], (20, 20), 7, 7. split.
+  exists [Insert 5 5 1; Insert 0 10 2; Insert 20 20 3], (20, 20), 7, 7. split.
   - vm_compute. tauto.
   - vm_compute. discriminate.
 Qed.
